@@ -631,9 +631,16 @@ def run(rep, tier, seed):
             samples.append({"toml_files": [G.unhx(x) for x in c.split(" ")], "outcome": f["R"]})
 
     # the shipped files must build, and the regenerated data must be what the theorems talk about
-    for k in ("toml_route_agrees", "generated_bundled_equals_file", "default_equals_rebuild", "spanish_route_agrees"):
+    for k in ("toml_route_agrees", "spanish_route_agrees"):
         if not gen_info[k]:
             disagreements.append(("units.toml", {"what": "shipped units: %s is false" % k, "input": shipped_case}))
+    # "the default converter equals the one built from the shipped units file": judged on the implementation alone
+    # (Converter::default() == ConverterBuilder::new().with_units_file(units.toml).finish(), and the bundled
+    # UnitsFile equals the parsed file); the failing input is the shipped file itself
+    for k, what in (("default_equals_rebuild", "Converter::default() differs from the converter built from units.toml"),
+                    ("generated_bundled_equals_file", "UnitsFile::bundled() differs from the parsed units.toml")):
+        if not gen_info[k]:
+            monitor_hits.append((shipped_case, what, {"input": shipped_case, "what": what}))
     if gen_info["spanish_outcome"] != "ok" or gen_info["default_api"] != "ok":
         monitor_hits.append((shipped_case, "the shipped units files do not build a consistent converter",
                              {"input": shipped_case, "outcome": gen_info["spanish_outcome"]}))
